@@ -49,6 +49,19 @@ var c18Thresholds = []c18Thr{
 	{"c100-nc100", "100", "100", 100, 100},
 }
 
+// thresholds of the family whose replica records come from the replicas' own health checks (the
+// test probe reports whole per cent of a fixed size: levels are taken well off the thresholds)
+var c18RealThr = c18Thr{"c95-nc90", "95", "90", 95, 90}
+
+var c18RealPct = map[int]string{dNcLo: "80", dNcHi: "92", dCLo: "93", dC: "97", dOver: "100"}
+
+func c18ThrOf(c c18Case) c18Thr {
+	if c.RealHealth {
+		return c18RealThr
+	}
+	return c18Thresholds[c.Thr]
+}
+
 const c18Total = 1000000
 
 func c18Used(th c18Thr, lvl int) (uint64, bool) {
@@ -96,6 +109,9 @@ type c18Case struct {
 	Keep  bool      `json:"keep_super_writable"`
 	WC    int       `json:"wait_count"`
 	Ticks []c18Tick `json:"ticks"`
+	// RealHealth: the replicas' records are published by the health check of each replica's own
+	// mysync, reading the disk probe (a missing report = a probe that fails), not written by hand
+	RealHealth bool `json:"replica_records_from_their_own_health_checks,omitempty"`
 }
 
 func (c c18Case) String() string {
@@ -107,7 +123,11 @@ func (c c18Case) String() string {
 		}
 		t = append(t, fmt.Sprintf("master=%s replicas=[%s]", c18LevelNames[tk.Master], strings.Join(rl, ",")))
 	}
-	return fmt.Sprintf("thr=%s ro=%d keep=%v wc=%d ticks={%s}", c18Thresholds[c.Thr].Name, c.RO, c.Keep, c.WC, strings.Join(t, "; "))
+	real := ""
+	if c.RealHealth {
+		real = " replica-records-from-real-health-checks"
+	}
+	return fmt.Sprintf("thr=%s ro=%d keep=%v wc=%d ticks={%s}%s", c18ThrOf(c).Name, c.RO, c.Keep, c.WC, strings.Join(t, "; "), real)
 }
 
 // c18Ref: the statement's decision. returns "ro", "rw", "none"; open=true when the statement leaves the cell open.
@@ -155,7 +175,7 @@ func c18Ref(th c18Thr, tk c18Tick, wc int) (dec string, open bool) {
 
 func c18Run(r *vt.Run, c c18Case) {
 	r.Eval()
-	th := c18Thresholds[c.Thr]
+	th := c18ThrOf(c)
 	nrep := 0
 	for _, tk := range c.Ticks {
 		if len(tk.Replicas) > nrep {
@@ -182,6 +202,12 @@ func c18Run(r *vt.Run, c c18Case) {
 		m.ReadOnly, m.SuperRO = c.RO >= 1, c.RO == 2
 		m.SSMaster, m.WaitCount = true, c.WC
 		a := h.Start("h1")
+		ra := map[string]*App{}
+		if c.RealHealth {
+			for _, host := range ha[1:] {
+				ra[host] = h.Start(host)
+			}
+		}
 		type obs struct{ ro, noSuper, rw, lowT, lowF int }
 		var o obs
 		w.OnApply = append(w.OnApply, func(ap *sim.Applied) {
@@ -233,6 +259,16 @@ func c18Run(r *vt.Run, c c18Case) {
 				lvl := dNcLo
 				if i < len(tk.Replicas) {
 					lvl = tk.Replicas[i]
+				}
+				if c.RealHealth {
+					if pct, ok := c18RealPct[lvl]; ok {
+						w.VFSPut("/vfs/"+host+"/usedspace", []byte(pct))
+					} else {
+						w.VFSDel("/vfs/" + host + "/usedspace") // the probe fails
+					}
+					h.Health(ra[host])
+					r.Count("replica_records_from_real_health_checks")
+					continue
 				}
 				zero := 0.0
 				st := &nodestate.NodeState{IsReadOnly: true, IsSuperReadOnly: true,
@@ -372,7 +408,7 @@ func checkC18(r *vt.Run) {
 							if r.Expired() {
 								return
 							}
-							c := c18Case{ti, ro, keep, wc, []c18Tick{{Master: ml, Replicas: rs}}}
+							c := c18Case{Thr: ti, RO: ro, Keep: keep, WC: wc, Ticks: []c18Tick{{Master: ml, Replicas: rs}}}
 							if idx%5000 == 17 {
 								r.Sample(c)
 							}
@@ -387,15 +423,34 @@ func checkC18(r *vt.Run) {
 							if !r.Mine(idx) {
 								continue
 							}
-							c := c18Case{ti, ro, keep, wc, []c18Tick{{Master: l1}, {Master: l2}}}
+							c := c18Case{Thr: ti, RO: ro, Keep: keep, WC: wc, Ticks: []c18Tick{{Master: l1}, {Master: l2}}}
 							r.Crumb(c)
 							c18Run(r, c)
 							// ... and with a tenure of another manager, which made the opposite change, in between:
 							// the same change has to be made - and flagged - again
-							c = c18Case{ti, ro, keep, wc, []c18Tick{{Master: l1}, {Master: l1, OtherManagerUndid: true}, {Master: l2}}}
+							c = c18Case{Thr: ti, RO: ro, Keep: keep, WC: wc, Ticks: []c18Tick{{Master: l1}, {Master: l1, OtherManagerUndid: true}, {Master: l2}}}
 							r.Crumb(c)
 							c18Run(r, c)
 						}
+					}
+				}
+			}
+		}
+	}
+	// the replicas' records produced by their own health checks, with a failing probe for "missing"
+	realLevels := []int{dNcLo, dNcHi, dCLo, dC, dMissing}
+	for ro := 0; ro < 3; ro++ {
+		for _, wc := range []int{1, 2} {
+			for _, ml := range masterLevels {
+				for _, l2 := range realLevels {
+					for _, l3 := range realLevels {
+						idx++
+						if !r.Mine(idx) {
+							continue
+						}
+						c := c18Case{RO: ro, WC: wc, Ticks: []c18Tick{{Master: ml, Replicas: []int{l2, l3}}}, RealHealth: true}
+						r.Crumb(c)
+						c18Run(r, c)
 					}
 				}
 			}
